@@ -141,9 +141,17 @@ fn decode(tape: &[u32], tier: Tier) -> Case {
     let isolation = t.chance(1, 4);
     let mut spec = if isolation {
         // a single layer (any kind incl. a feedback block) for the public per-layer backward
-        let input = gen_input(&mut t, &o);
-        let l = gen_layer(&mut t, &input, true, &o, true);
-        NetSpec { input, layers: vec![l] }
+        if t.chance(1, 150) {
+            // a large map (13-24 pixels a side, kernels up to 5) through one convolution / deconvolution / max-pool
+            let oo = GenOpts { max_hw: 24, max_kernel: 5, allow_feedback: false, ..GenOpts::default() };
+            let input = vec![t.usize(1, 2), t.usize(13, 24), t.usize(13, 24)];
+            let l = gen_layer(&mut t, &input, true, &oo, false);
+            NetSpec { input, layers: vec![l] }
+        } else {
+            let input = gen_input(&mut t, &o);
+            let l = gen_layer(&mut t, &input, true, &o, true);
+            NetSpec { input, layers: vec![l] }
+        }
     } else {
         gen_net(&mut t, &o)
     };
@@ -284,6 +292,9 @@ pub fn check(case: &Case, ev: &mut CaseEv, tier: Tier) -> CheckResult {
     }
     if case.softmax_ce {
         ev.class("softmax+CE");
+    }
+    if case.isolation && spec.input.len() == 3 && spec.input[1] >= 13 {
+        ev.class("single layer on a large map (13-24 a side)");
     }
     ev.class(format!("objective:{:?}", case.obj));
 
@@ -727,7 +738,7 @@ impl Prop for C01 {
         t.pick(60_000, 3_000_000)
     }
     fn rule(&self) -> String {
-        "tape-decoded network: input flat 1..8 or c x h x w (c 1-3, h,w 1-7, thorough 9; non-square), 1-4 (thorough 6) layers of dense / convolution / deconvolution / max-pool / feedback block without internal skips in any order that fits, full (filters, kernel, stride, padding, dilation, bias) lattice, element-wise activations, soft-max + cross-entropy head in 1/6 of the cases, all seven objectives, distinct non-constant weights and inputs; 1/4 of the cases are single layers whose public backward() is called in isolation (a quarter of them with weights of scale 5, i.e. saturated tanh / logistic units; dense / convolution / deconvolution layers are then judged by component-wise error bounds instead of a norm-wise tolerance); in 1/6 of the other cases the same network object first goes through two epochs of learn() and the gradients are checked at the trained weights; parameter tensors that are exactly zero and inputs with exact zeros occur (with smooth activations). Oracle: central differences of an independent f64 reference network (path P1, used when the reference reproduces the library's forward pass at the base point and two perturbed points) or of the library's own f32 forward pass with Richardson extrapolation (path P2); every parameter (sampled above 300) and, for isolated layers, every input-gradient component; one learn() step with plain SGD must move each parameter by -lr * gradient. Cases within 2e-3 of an activation kink / pooling tie are discarded (counted). Non-trivial: |g|max > 1e-3 and (depth >= 2 or non-default stride/dilation/padding or >= 2 channels or a feedback block). Distinct = (architecture with all hyper-parameters and activations, objective, soft-max flag).".into()
+        "tape-decoded network: input flat 1..8 or c x h x w (c 1-3, h,w 1-7, thorough 9; non-square), 1-4 (thorough 6) layers of dense / convolution / deconvolution / max-pool / feedback block without internal skips in any order that fits, full (filters, kernel, stride, padding, dilation, bias) lattice, element-wise activations, soft-max + cross-entropy head in 1/6 of the cases, all seven objectives, distinct non-constant weights and inputs; 1/4 of the cases are single layers whose public backward() is called in isolation (one in 150 of them on a map of 13-24 pixels a side with kernels up to 5; a quarter of them with weights of scale 5, i.e. saturated tanh / logistic units; dense / convolution / deconvolution layers are then judged by component-wise error bounds instead of a norm-wise tolerance); in 1/6 of the other cases the same network object first goes through two epochs of learn() and the gradients are checked at the trained weights; parameter tensors that are exactly zero and inputs with exact zeros occur (with smooth activations). Oracle: central differences of an independent f64 reference network (path P1, used when the reference reproduces the library's forward pass at the base point and two perturbed points) or of the library's own f32 forward pass with Richardson extrapolation (path P2); every parameter (sampled above 300) and, for isolated layers, every input-gradient component; one learn() step with plain SGD must move each parameter by -lr * gradient. Cases within 2e-3 of an activation kink / pooling tie are discarded (counted). Non-trivial: |g|max > 1e-3 and (depth >= 2 or non-default stride/dilation/padding or >= 2 channels or a feedback block). Distinct = (architecture with all hyper-parameters and activations, objective, soft-max flag).".into()
     }
     fn assumptions(&self) -> Vec<String> {
         vec![
